@@ -144,6 +144,9 @@ def first_ops(n):
 
 def second_ops(n):
     ops = [op for op in unary_ops(n) if op[0] not in ("rep_d", "filter", "loc")]  # thorough alphabet minus the three big families
+    skip = {("cols",), ("fillna",), ("assign",), ("rep_s", 100), ("parts", ("l", (-1,))), ("parts", ("i", 0)), ("loclist", (0, 1)), ("loclist", (1, 2)), ("loclist", (2, 3)),
+            ("setidx", "a", "n1"), ("setidx", "g", "n1"), ("setidx", "r", "n1")}
+    ops = [op for op in ops if op not in skip]
     ops += [("filter", b) for b in sorted({1, (1 << n) - 2, ((1 << n) - 1) & 0b1010})]
     ops += [("loc", lo, hi) for lo, hi in ((1, None), (None, 2), (1, 2), (0, 3), (2, 1))]
     ops += [("rep_d", b, True) for b in ((0, 3), (0, 2, 3), (0, 1, 2, 3), (0, 1, 3, 3), (1, 2))]
